@@ -607,3 +607,93 @@ def clim_object_history(tier, rng, n_objects):
                                   "clause": "the call modified the caller's ClimatologyConfig object"})
                     break
     return n_eval, fails
+
+
+# ------------------------------------------------------------------ C01: the caller reuses its buffers
+
+class BufferReuse:
+    """KW_TRANSFORM hook: every ndarray argument is passed through a persistent buffer of the same name,
+    shape and dtype whose contents are overwritten IN PLACE (what a caller with a rolling real-time
+    buffer does).  A library that keys hidden state on object identity, or keeps references to its
+    arguments, then sees 'the same object' with new contents."""
+
+    def __init__(self):
+        self.buf = {}
+        self.reused = 0
+
+    def __call__(self, kw):
+        import numpy as np
+        for k, v in list(kw.items()):
+            if isinstance(v, np.ndarray) and not isinstance(v, np.ma.MaskedArray) and v.ndim == 1:
+                key = (k, v.shape, str(v.dtype))
+                b = self.buf.get(key)
+                if b is None:
+                    b = v.copy()
+                    self.buf[key] = b
+                else:
+                    b[...] = v
+                    self.reused += 1
+                kw[k] = b
+        return kw
+
+
+def shared_buffer_history(reg, tier, rng, per_test):
+    fails, n_eval, reused = [], 0, 0
+    hook = BufferReuse()
+    calls = []
+    for name, ad, gen in reg:
+        cs = sample(domain_cases(name, ad, gen, tier, rng), per_test, rng)
+        calls += [(name, ad, c) for c in cs]
+    # same-length cases close together so that buffers really are reused, tests interleaved
+    calls.sort(key=lambda t: (input_length(t[0], t[2]) or 0, rng.random()))
+    # pass 1: every call with fresh arrays; pass 2: the same calls, consecutively, with reused buffers
+    fresh = [ad.impl(c)[0] for name, ad, c in calls]
+    core.KW_TRANSFORM = hook
+    try:
+        got_all = [ad.impl(c)[0] for name, ad, c in calls]
+    finally:
+        core.KW_TRANSFORM = None
+    n_eval = 2 * len(calls)
+    for (name, ad, c), f, got in zip(calls, fresh, got_all):
+        if got != f:
+            fails.append({"kind": "history", "function": name, "case": c, "impl": f, "impl_reused_buffers": got,
+                          "clause": "with the caller's arrays reused in place across calls the test returns different "
+                                    "flags than with fresh arrays (hidden state keyed on its arguments)"})
+    return n_eval, fails, hook.reused
+
+
+# ------------------------------------------------------------------ sub-second time axes (C15, C17)
+
+def roc_subsecond_cases(rng, k):
+    """rate_of_change cases on irregular axes whose steps are NOT whole seconds (>= 1 s, so the elapsed
+    whole seconds are >= 1) with thresholds between the rates for neighbouring second counts"""
+    out = []
+    for _ in range(k):
+        n = rng.randint(3, 7)
+        t = (1577880000 + rng.randint(0, 50)) * NS + rng.choice([0, 100, 250, 500, 750, 900]) * 10 ** 6
+        ts = []
+        for _ in range(n):
+            ts.append(t)
+            t += rng.choice([1100, 1200, 1500, 1800, 1900, 2100, 2500, 2900, 3000, 1000]) * 10 ** 6
+        xs = [None if rng.random() < 0.1 else core.fr(F(rng.randint(-8, 8) * 4)) for _ in range(n)]
+        thr = F(rng.choice([1, 2, 3, 4, 6]))
+        out.append({"xs": xs, "ts_ns": ts, "kind": "dt64", "thr": core.fr(thr)})
+    return out
+
+
+def roc_time_shift_failures(ad, cases, rng):
+    """shifting all timestamps by ANY constant (sub-second ones included) leaves the flags unchanged"""
+    fails, n = [], 0
+    for c in cases:
+        base, _ = ad.impl(c)
+        for shift_ms in (200, 350, 500, 999, 1000, 86400123):
+            d = copy.deepcopy(c)
+            d["ts_ns"] = [t + shift_ms * 10 ** 6 for t in c["ts_ns"]]
+            got, _ = ad.impl(d)
+            n += 1
+            if got != base:
+                fails.append({"kind": "predicate", "function": "rate_of_change_test",
+                              "case": {"original": c, "shift_ms": shift_ms}, "impl": base, "impl_transformed": got,
+                              "clause": "flags not invariant under a shift of all timestamps"})
+                break
+    return n, fails
